@@ -81,7 +81,8 @@ def run_chunker_check(prop, tier):
         for (a, w, b) in groups[:-1]:
             tr = os.path.join(workdir, "smallpairs_%s_%d_%d.ndjson" % (a, w, b))
             traces.append(tr)
-            trace_args[tr] = ["--mode", "smallpairs", "--alg", a, "--w", str(w), "--bits", str(b), "--lmax", str(lmax - 1)]
+            # suffixes of up to 6 (windows 1-2: 7) values in the quick tier, 7 (8) in the thorough one: state that survives a chunk boundary needs a second chunk to show
+            trace_args[tr] = ["--mode", "smallpairs", "--alg", a, "--w", str(w), "--bits", str(b), "--lmax", str(lmax + (1 if w <= 2 else 0) if tier == "quick" else lmax - (0 if w <= 2 else 1))]
             procs.append(subprocess.Popen(["timeout", "1500", VH, "chunker-l1"] + trace_args[tr] + ["--out", tr], stdout=subprocess.PIPE, stderr=subprocess.PIPE))
         npairs = 2400 if tier == "quick" else 40000
         for i in range(8):
